@@ -654,3 +654,719 @@ Proof.
     + unfold needs_run in Hnr. rewrite Hp, Hk in Hnr. discriminate.
     + apply (inv_done _ _ I) in Hk. congruence.
 Qed.
+
+(* ------------------------------------------------------------------ *)
+(* the monitor accepts every history of the transition system          *)
+(* ------------------------------------------------------------------ *)
+
+Definition pre_notify (p : pc) : bool :=
+  match p with LAcq true | LRel true | NAcq | NUpd => true | _ => false end.
+Definition post_notify (p : pc) : bool :=
+  match p with NSig | NRel true => true | _ => false end.
+Definition b2n (b : bool) : nat := if b then 1 else 0.
+Fixpoint countp (f : pc -> bool) (l : list (pc * bool)) : nat :=
+  match l with [] => 0 | x :: r => b2n (f (fst x)) + countp f r end.
+
+Lemma countp_upd f l t p cf p' cf' :
+  nth_error l t = Some (p, cf) ->
+  countp f (upd l t (p', cf')) + b2n (f p) = countp f l + b2n (f p').
+Proof.
+  revert t. induction l as [|x r IH]; intros [|t] H; simpl in *; try discriminate.
+  - inversion H; subst. simpl. lia.
+  - specialize (IH _ H). lia.
+Qed.
+
+Lemma countp_repeat f n cf : f Idle = false -> countp f (repeat (Idle, cf) n) = 0.
+Proof. intros H. induction n; simpl; auto. rewrite H, IHn. reflexivity. Qed.
+
+Lemma aget_none_notin {A} (l : list (nat * A)) t : aget l t = None -> ~ In t (map fst l).
+Proof.
+  induction l as [|[k v] l IH]; simpl; auto. destruct (Nat.eqb_spec k t); [discriminate|].
+  intros H [E|E]; [congruence|]. exact (IH H E).
+Qed.
+
+Lemma aget_in_nodup {A} (l : list (nat * A)) t v :
+  NoDup (map fst l) -> In (t, v) l -> aget l t = Some v.
+Proof.
+  induction l as [|[k w] l IH]; simpl; intros N H; [contradiction|].
+  inversion N; subst. destruct H as [H|H].
+  - inversion H; subst. rewrite Nat.eqb_refl. reflexivity.
+  - destruct (Nat.eqb_spec k t); [|auto]. subst. exfalso. apply H2.
+    change t with (fst (t, v)). apply in_map. exact H.
+Qed.
+
+Lemma adel_keys_incl {A} (l : list (nat * A)) t x : In x (map fst (adel l t)) -> In x (map fst l).
+Proof.
+  induction l as [|[k w] l IH]; simpl; auto. destruct (Nat.eqb k t); simpl; intuition.
+Qed.
+
+Lemma nodup_adel {A} (l : list (nat * A)) t : NoDup (map fst l) -> NoDup (map fst (adel l t)).
+Proof.
+  induction l as [|[k w] l IH]; simpl; intros N; auto. inversion N; subst.
+  destruct (Nat.eqb k t); simpl; auto. constructor; auto.
+  intros H. apply H1. eapply adel_keys_incl; eauto.
+Qed.
+
+Lemma adel_notin {A} (l : list (nat * A)) t : ~ In t (map fst (adel l t)).
+Proof. apply aget_none_notin. apply aget_adel_same. Qed.
+
+Lemma map_fst_refresh {A B} (f : A -> B) (l : list (nat * A)) :
+  map fst (map (fun x => (fst x, f (snd x))) l) = map fst l.
+Proof. induction l as [|[k v] l IH]; simpl; congruence. Qed.
+
+Section Sim.
+Variable c : mcfg.
+Let i0 := c_init c.
+
+Definition ret_ok (s : state) (m : mstate) (w : winfo) (i : N) (e : werr) : Prop :=
+  exists k, w_floor w <= k <= cnt s /\ i = idx_at i0 k /\
+    (e = WTerminated -> m_tcall m = true) /\
+    (e = WCancelled -> w_canc w = true) /\
+    (e = WOk -> (w_prev w = 0%N \/ i <> w_prev w) /\ w_aft w = false).
+
+Definition reg_rel (s : state) (m : mstate) (t : nat) (q : N) (w : winfo) : Prop :=
+  w_prev w = q /\ w_aft w = false /\
+  forall i tm, aget (resp s) t = Some (i, tm) -> ret_ok s m w i (err_of_term tm).
+
+Definition wait_rel (s : state) (m : mstate) (t : nat) (p : pc) (w : winfo) : Prop :=
+  w_floor w <= cnt s /\
+  (w_due w <> None -> urgent c m w = true) /\
+  (w_aft w = true -> m_tret m = true) /\
+  match p with
+  | W0Acq | W0Read => w_prev w = 0%N
+  | WRelRet i e => ret_ok s m w i e
+  | WAcq q | WReg q => w_prev w = q
+  | WSig q | WRel q | WSel q => reg_rel s m t q w
+  | WCAcq q | WCDel q => w_canc w = true /\ reg_rel s m t q w
+  | _ => False
+  end.
+
+Definition op_rel (s : state) (m : mstate) (t : nat) (p : pc) (cf : bool) (o : option oop) : Prop :=
+  match p with
+  | Idle => o = None
+  | LAcq true | LRel true | NAcq | NUpd => exists nf, o = Some (OpNotify nf) /\ nf <= cnt s
+  | NSig | NRel true => exists nf, o = Some (OpNotify nf) /\ S nf <= cnt s
+  | NRel false => exists nf, o = Some (OpNotify nf) /\ m_tcall m = true
+  | LAcq false | LRel false => o = Some OpPlain
+  | TAcq | TSet | TSig | TRel | TAwait => o = Some OpTerm /\ m_tcall m = true
+  | _ => exists w, o = Some (OpWait w) /\ w_canc w = cf /\ wait_rel s m t p w
+  end.
+
+Record Sim (s : state) (m : mstate) : Prop := mkSim {
+  sim_thr : forall t, match nth_error (thr s) t with
+                      | Some (p, cf) => op_rel s m t p cf (aget (m_open m) t)
+                      | None => aget (m_open m) t = None
+                      end;
+  sim_nodup : NoDup (map fst (m_open m));
+  sim_lo : m_lo m + countp post_notify (thr s) <= cnt s;
+  sim_hi : cnt s + countp pre_notify (thr s) <= m_hi m;
+  sim_hi_eq : m_hi m = count_notifying (history s);
+  sim_maxk : m_maxk m <= cnt s;
+  sim_term : terminated s = true -> m_tcall m = true;
+  sim_tret : m_tret m = true -> terminated s = true
+}.
+
+(* m' knows at least as much as m *)
+Definition mext (m m' : mstate) : Prop :=
+  m_floor m <= m_floor m' /\ (m_tcall m = true -> m_tcall m' = true) /\
+  (m_tret m = true -> m_tret m' = true).
+
+Lemma mext_refl m : mext m m.
+Proof. unfold mext; auto. Qed.
+
+Lemma stale_mono m m' p :
+  m_floor m <= m_floor m' -> certainly_stale c m p = true -> certainly_stale c m' p = true.
+Proof.
+  unfold certainly_stale. intros Hf H.
+  destruct (find_k (c_init c) p (m_floor m) (S (c_total c) - m_floor m)) eqn:E; [discriminate|].
+  rewrite find_k_none in E.
+  destruct (find_k (c_init c) p (m_floor m') (S (c_total c) - m_floor m')) eqn:E'; auto.
+  apply find_k_some in E'. destruct E' as [E1 [E2 _]]. exfalso. apply (E n); auto. lia.
+Qed.
+
+Lemma urgent_mono m m' w : mext m m' -> urgent c m w = true -> urgent c m' w = true.
+Proof.
+  intros [Hf [_ Ht]] H. unfold urgent in *.
+  repeat (apply orb_true_iff in H; destruct H as [H|H]); rewrite ?H, ?orb_true_r; auto.
+  - rewrite (Ht H), ?orb_true_r. auto.
+  - rewrite (stale_mono _ _ _ Hf H), ?orb_true_r. auto.
+Qed.
+
+Lemma urgent_canc m w d :
+  urgent c m (mkW (w_prev w) (w_floor w) true (w_aft w) d) = true.
+Proof. unfold urgent. simpl. rewrite orb_true_r. reflexivity. Qed.
+
+Lemma urgent_due m w d :
+  urgent c m (mkW (w_prev w) (w_floor w) (w_canc w) (w_aft w) d) = urgent c m w.
+Proof. reflexivity. Qed.
+
+Lemma ret_ok_mono s s' m m' w i e :
+  cnt s <= cnt s' -> mext m m' -> ret_ok s m w i e -> ret_ok s' m' w i e.
+Proof.
+  intros Hc [_ [Ht _]] (k & Hk & Hi & H1 & H2 & H3). exists k. repeat split; auto; try lia; apply H3; auto.
+Qed.
+
+(* the relation of a thread that does not move is kept when the state and
+   the monitor advance *)
+Lemma op_rel_frame s s' m m' t p cf o :
+  cnt s <= cnt s' -> aget (resp s') t = aget (resp s) t -> mext m m' ->
+  op_rel s m t p cf o -> op_rel s' m' t p cf o.
+Proof.
+  intros Hc Hr Hx H. pose proof Hx as [Hf [Htc Htr]].
+  unfold op_rel in *.
+  destruct p; try (destruct n); try (destruct eff); auto;
+    try solve [destruct H as (nf & Ho & Hn); exists nf; split; [exact Ho|first [lia|auto]]];
+    try solve [destruct H as [Ho Hn]; split; auto];
+    destruct H as (w & Ho & Hcf & Hfl & Hdue & Haft & Hm); exists w; split; auto; split; auto;
+    unfold wait_rel; (split; [lia|]); (split; [intros Hd; eapply urgent_mono; eauto|]);
+    (split; [auto|]); auto;
+    try (eapply ret_ok_mono; eauto; fail);
+    unfold reg_rel in *; rewrite Hr; intuition auto; eapply ret_ok_mono; eauto.
+Qed.
+
+Lemma refresh_urgent tm m w : urgent c (refresh c tm m) w = urgent c m w.
+Proof. reflexivity. Qed.
+
+Lemma wait_rel_due s m t p w d :
+  wait_rel s m t p w -> (d <> None -> urgent c m w = true) ->
+  wait_rel s m t p (mkW (w_prev w) (w_floor w) (w_canc w) (w_aft w) d).
+Proof.
+  unfold wait_rel. intros (Hfl & Hdue & Haft & Hm) Hd. simpl.
+  split; [exact Hfl|]. split; [exact Hd|]. split; [exact Haft|]. destruct p; exact Hm.
+Qed.
+
+Lemma op_rel_refresh s m tm t p cf o :
+  op_rel s m t p cf o ->
+  op_rel s (refresh c tm m) t p cf (option_map (refresh_one c m tm) o).
+Proof.
+  intros H. unfold op_rel in *.
+  destruct p; try (destruct n); try (destruct eff); try (subst o; reflexivity);
+    try solve [destruct H as (nf & Ho & Hn); subst o; exists nf; split; [reflexivity|exact Hn]];
+    try solve [destruct H as [H H']; subst o; split; [reflexivity|exact H']];
+    destruct H as (w & Ho & Hcf & Hw); subst o; simpl;
+    (destruct (w_due w) eqn:Ed;
+     [ exists w; split; [reflexivity|]; split; [auto|]; exact Hw
+     | destruct (urgent c m w) eqn:Eu;
+       [ eexists; split; [reflexivity|]; split; [exact Hcf|];
+         apply (wait_rel_due s m); [exact Hw|intros _; exact Eu]
+       | exists w; split; [reflexivity|]; split; [auto|]; exact Hw ] ]).
+Qed.
+
+(* the thread's entry in the monitor after an event that leaves it alone *)
+Lemma refresh_open tm m t :
+  aget (m_open (refresh c tm m)) t = option_map (refresh_one c m tm) (aget (m_open m) t).
+Proof. unfold refresh. simpl. apply aget_map_snd. Qed.
+
+Lemma sim_refresh s m tm : Sim s m -> Sim s (refresh c tm m).
+Proof.
+  intros S. constructor; try apply S.
+  - intros t. pose proof (sim_thr _ _ S t) as H. rewrite refresh_open.
+    destruct (nth_error (thr s) t) as [[p cf]|].
+    + apply op_rel_refresh. exact H.
+    + rewrite H. reflexivity.
+  - unfold refresh. simpl. rewrite map_fst_refresh. apply S.
+Qed.
+
+Lemma sim_build s m s' m1 t p cf p' cf' :
+  Sim s m -> nth_error (thr s) t = Some (p, cf) ->
+  thr s' = upd (thr s) t (p', cf') ->
+  cnt s <= cnt s' ->
+  (forall t', t' <> t -> aget (resp s') t' = aget (resp s) t') ->
+  mext m m1 ->
+  (forall t', t' <> t -> aget (m_open m1) t' = aget (m_open m) t') ->
+  NoDup (map fst (m_open m1)) ->
+  op_rel s' m1 t p' cf' (aget (m_open m1) t) ->
+  m_lo m1 + countp post_notify (thr s') <= cnt s' ->
+  cnt s' + countp pre_notify (thr s') <= m_hi m1 ->
+  m_hi m1 = count_notifying (history s') ->
+  m_maxk m1 <= cnt s' ->
+  (terminated s' = true -> m_tcall m1 = true) ->
+  (m_tret m1 = true -> terminated s' = true) ->
+  Sim s' m1.
+Proof.
+  intros S Ht Hthr Hc Hr Hx Ho Hnd Hop Hlo Hhi Hheq Hmk Htm Htr.
+  constructor; auto.
+  intros t'. rewrite Hthr, (nth_upd _ _ _ _ _ Ht).
+  destruct (Nat.eqb_spec t' t) as [->|Hne]; [exact Hop|].
+  pose proof (sim_thr _ _ S t') as H. rewrite (Ho _ Hne).
+  destruct (nth_error (thr s) t') as [[pz cz]|]; [|exact H].
+  eapply op_rel_frame; eauto.
+Qed.
+
+
+Lemma count_notifying_snoc l e :
+  count_notifying (l ++ [e]) = count_notifying l + b2n (is_notifying e).
+Proof.
+  unfold count_notifying. rewrite filter_app, app_length. simpl.
+  destruct (is_notifying e); simpl; lia.
+Qed.
+
+Lemma late_zero d : late c d 0 = false.
+Proof. unfold late. destruct (c_slack c); auto. destruct d; auto. apply N.ltb_ge. lia. Qed.
+
+Lemma check_ret_ok s m w i e :
+  ret_ok s m w i e -> cnt s <= m_hi m ->
+  exists k', check_wait_ret c m w i e 0 = inr k' /\ k' <= cnt s.
+Proof.
+  intros (k & Hk & Hi & H1 & H2 & H3) Hhi. unfold check_wait_ret.
+  assert (E1 : (werr_eqb e WTerminated && negb (m_tcall m)) || (werr_eqb e WCancelled && negb (w_canc w)) = false).
+  { destruct e; simpl; auto; [rewrite H1|rewrite H2]; auto. }
+  rewrite E1.
+  assert (E2 : werr_eqb e WOk && negb (N.eqb (w_prev w) 0) && N.eqb i (w_prev w) = false).
+  { destruct e; simpl; auto. destruct (H3 eq_refl) as [[Hp|Hp] _].
+    - rewrite Hp. reflexivity.
+    - destruct (N.eqb_spec i (w_prev w)); [contradiction|]. apply andb_false_r. }
+  rewrite E2.
+  destruct (find_k_complete (c_init c) i (w_floor w) (S (m_hi m) - w_floor w) k) as (k' & Hf & Hk' & _);
+    [lia|symmetry; exact Hi|].
+  rewrite Hf.
+  assert (E3 : werr_eqb e WOk && w_aft w = false).
+  { destruct e; simpl; auto. destruct (H3 eq_refl) as [_ Ha]. exact Ha. }
+  rewrite E3, late_zero. exists k'. split; auto. lia.
+Qed.
+
+Ltac counts SS Ht :=
+  pose proof (sim_lo _ _ SS); pose proof (sim_hi _ _ SS); pose proof (sim_maxk _ _ SS);
+  try match goal with
+  | |- context [upd _ _ (?p', ?cf')] =>
+      let H1 := fresh in let H2 := fresh in
+      pose proof (countp_upd post_notify _ _ _ _ p' cf' Ht) as H1;
+      pose proof (countp_upd pre_notify _ _ _ _ p' cf' Ht) as H2;
+      simpl b2n in *; simpl post_notify in *; simpl pre_notify in *; simpl b2n in *
+  end; lia.
+
+Ltac ret_build SS Ht :=
+  match goal with |- Sim _ ?M1 => eapply (sim_build _ _ _ M1 _ _ _ _ _ SS Ht) end; flds;
+  [ reflexivity | lia | intros; rewrite ?aget_adel_other; auto
+  | unfold mext, m_floor; cbn [m_lo m_maxk m_tcall m_tret]; repeat split; auto; try lia
+  | intros; simpl; apply aget_adel_other; auto
+  | simpl; apply nodup_adel; apply SS
+  | simpl; apply aget_adel_same
+  | simpl m_lo; try solve [counts SS Ht]
+  | simpl m_hi; try solve [counts SS Ht]
+  | unfold history; simpl; rewrite count_notifying_snoc; simpl; rewrite Nat.add_0_r;
+    exact (sim_hi_eq _ _ SS)
+  | simpl m_maxk; try solve [counts SS Ht]
+  | simpl; auto
+  | simpl; auto ].
+
+Lemma sim_thread_step s t p cf s' m :
+  Inv i0 s -> Sim s m -> nth_error (thr s) t = Some (p, cf) ->
+  thread_step s t p cf = Some s' ->
+  (log s' = log s /\ Sim s' m) \/
+  (exists e m', log s' = e :: log s /\ mon_event c m e = MOk m' /\ Sim s' m').
+Proof.
+  intros I SS Ht Hs.
+  pose proof (sim_thr _ _ SS t) as Hop. rewrite Ht in Hop.
+  pose proof (inv_pc _ _ I _ _ _ Ht) as [Hhold Hpc].
+  pose proof (inv_idx _ _ I) as Iix.
+  pose proof (sim_term _ _ SS) as Stm. pose proof (sim_tret _ _ SS) as Str.
+  tcases p Hs Hhold Hpc s'.
+  all: try (left; split; [reflexivity|];
+    eapply (sim_build _ _ _ _ _ _ _ _ _ SS Ht); flds;
+    [ reflexivity | try lia | intros; rewrite ?aget_adel_other; auto | apply mext_refl | auto | apply SS
+    | | try solve [counts SS Ht] | try solve [counts SS Ht] | exact (sim_hi_eq _ _ SS)
+    | try solve [counts SS Ht] | try assumption | try assumption ]).
+  (* op_rel of the new pc, quiet steps *)
+  all: try (unfold op_rel in Hop |- *; simpl in Hop |- *;
+            first [ solve [auto | tauto | destruct n; auto]
+                  | solve [try destruct n; auto; destruct Hop as (nf & Ho & Hn); exists nf;
+                           split; [exact Ho|first [lia|auto]]]
+                  | destruct Hop as (w & Ho & Hcf & Hfl & Hdue & Haft & Hm); exists w;
+                    split; [exact Ho|]; split; [exact Hcf|]; unfold wait_rel; flds;
+                    split; [lia|]; split; [exact Hdue|]; split; [exact Haft|];
+                    first [ exact Hm
+                          | unfold ret_ok; flds; exists (cnt s); split; [lia|]; split; [exact Iix|];
+                            (destruct (terminated s) eqn:Et; simpl);
+                            repeat split; intros; try discriminate; auto; try tauto;
+                            try (destruct (w_aft w) eqn:Ea;
+                                 [exfalso; pose proof (Str (Haft eq_refl)); congruence|reflexivity])
+                          ] ]).
+  - (* LRel false: return of Lock/UnlockWithoutNotify *)
+    unfold op_rel in Hop. simpl in Hop.
+    right. eexists. exists (refresh c 0 (set_open m (adel (m_open m) t))).
+    split; [reflexivity|]. split; [simpl; rewrite Hop; reflexivity|].
+    apply sim_refresh.
+    ret_build SS Ht.
+  - (* NRel: return of NotifyOfChange / Unlock *)
+    unfold op_rel in Hop.
+    assert (Ho : exists nf, aget (m_open m) t = Some (OpNotify nf) /\
+                            (if eff then Datatypes.S nf <= cnt s else m_tcall m = true))
+      by (destruct eff; exact Hop).
+    destruct Ho as (nf & Ho & Hn).
+    right. eexists.
+    exists (refresh c 0 (mkM (if m_tcall m then m_lo m else Datatypes.S (m_lo m)) (m_hi m)
+                            (if m_tcall m then m_maxk m else Nat.max (m_maxk m) (Datatypes.S nf))
+                            (m_tcall m) (m_tret m) (adel (m_open m) t))).
+    split; [reflexivity|]. split; [simpl; rewrite Ho; reflexivity|].
+    apply sim_refresh.
+    destruct eff; [|rewrite Hn]; destruct (m_tcall m) eqn:Etc; try discriminate;
+    ret_build SS Ht.
+  - (* WRelRet: return of WaitForChange through the deferred Unlock *)
+    unfold op_rel in Hop. destruct Hop as (w & Ho & Hcf & Hfl & Hdue & Haft & Hm).
+    destruct (check_ret_ok _ _ _ _ _ Hm) as (k' & Hck & Hk'); [pose proof (sim_hi _ _ SS); lia|].
+    right. eexists.
+    exists (refresh c 0 (mkM (m_lo m) (m_hi m) (Nat.max (m_maxk m) k') (m_tcall m) (m_tret m)
+                            (adel (m_open m) t))).
+    split; [reflexivity|]. split; [simpl; rewrite Ho, Hck; reflexivity|].
+    apply sim_refresh. ret_build SS Ht.
+  - (* WReg -> WSig: the request is registered *)
+    unfold op_rel in Hop |- *. destruct Hop as (w & Ho & Hcf & Hfl & Hdue & Haft & Hm). exists w.
+    split; [exact Ho|]. split; [exact Hcf|]. unfold wait_rel; flds.
+    split; [lia|]. split; [exact Hdue|]. split; [exact Haft|]. unfold reg_rel; flds.
+    split; [exact Hm|]. split.
+    + destruct (w_aft w) eqn:Ea; auto. pose proof (Str (Haft eq_refl)). congruence.
+    + intros i tm Hr. rewrite aget_adel_same in Hr. discriminate.
+  - (* WSel: the response is received *)
+    unfold op_rel in Hop. destruct Hop as (w & Ho & Hcf & Hfl & Hdue & Haft & Hq & Ha & Hm).
+    specialize (Hm _ _ Heqo).
+    destruct (check_ret_ok _ _ _ _ _ Hm) as (k' & Hck & Hk'); [pose proof (sim_hi _ _ SS); lia|].
+    right. eexists.
+    exists (refresh c 0 (mkM (m_lo m) (m_hi m) (Nat.max (m_maxk m) k') (m_tcall m) (m_tret m)
+                            (adel (m_open m) t))).
+    split; [reflexivity|]. split; [simpl; rewrite Ho, Hck; reflexivity|].
+    apply sim_refresh. ret_build SS Ht.
+  - (* TAwait: return of Terminate *)
+    unfold op_rel in Hop. destruct Hop as [Ho Htc].
+    right. eexists.
+    exists (refresh c 0 (mkM (m_lo m) (m_hi m) (m_maxk m) (m_tcall m) true (adel (m_open m) t))).
+    split; [reflexivity|]. split; [simpl; rewrite Ho; reflexivity|].
+    apply sim_refresh. ret_build SS Ht.
+Qed.
+
+Lemma sim_selcancel s t s' m :
+  Inv i0 s -> Sim s m -> sel_cancel s t = Some s' -> log s' = log s /\ Sim s' m.
+Proof.
+  intros I SS H. unfold sel_cancel in H.
+  destruct (nth_error (thr s) t) as [[p cf]|] eqn:Ht; [|discriminate].
+  destruct p; try discriminate. destruct cf; [|discriminate]. inversion H; subst s'; clear H.
+  pose proof (sim_thr _ _ SS t) as Hop. rewrite Ht in Hop.
+  split; [reflexivity|]. unfold set_thr.
+  eapply (sim_build _ _ _ _ _ _ _ _ _ SS Ht); flds;
+    [ reflexivity | lia | auto | apply mext_refl | auto | apply SS
+    | | try solve [counts SS Ht] | try solve [counts SS Ht] | exact (sim_hi_eq _ _ SS)
+    | try solve [counts SS Ht] | apply SS | apply SS ].
+  unfold op_rel in Hop |- *. destruct Hop as (w & Ho & Hcf & Hfl & Hdue & Haft & Hm). exists w.
+  split; [exact Ho|]. split; [exact Hcf|]. unfold wait_rel; flds.
+  split; [lia|]. split; [exact Hdue|]. split; [exact Haft|]. split; [exact Hcf|exact Hm].
+Qed.
+
+Lemma ret_ok_canc s m w i e d :
+  ret_ok s m w i e -> ret_ok s m (mkW (w_prev w) (w_floor w) true (w_aft w) d) i e.
+Proof.
+  intros (k & H1 & H2 & H3 & H4 & H5). exists k. simpl.
+  split; [exact H1|]. split; [exact H2|]. split; [exact H3|]. split; [auto|exact H5].
+Qed.
+
+Lemma wait_rel_canc s m t p w :
+  wait_rel s m t p w ->
+  wait_rel s m t p (mkW (w_prev w) (w_floor w) true (w_aft w) (w_due w)).
+Proof.
+  unfold wait_rel. intros (Hfl & Hdue & Haft & Hm). simpl.
+  split; [exact Hfl|]. split; [intros _; apply urgent_canc|]. split; [exact Haft|].
+  destruct p; auto; try (apply ret_ok_canc; exact Hm);
+    unfold reg_rel in *; simpl; intuition auto; apply ret_ok_canc; auto.
+Qed.
+
+Lemma aget_cons_other {A} (l : list (nat * A)) t t' x : t' <> t -> aget ((t, x) :: l) t' = aget l t'.
+Proof. intros H. simpl. destruct (Nat.eqb_spec t t'); [congruence|reflexivity]. Qed.
+
+Lemma aget_cons_same {A} (l : list (nat * A)) t x : aget ((t, x) :: l) t = Some x.
+Proof. simpl. rewrite Nat.eqb_refl. reflexivity. Qed.
+
+Lemma sim_cancel s t s' m :
+  Inv i0 s -> Sim s m -> step s (ACancel t) = Some s' ->
+  exists e m', log s' = e :: log s /\ mon_event c m e = MOk m' /\ Sim s' m'.
+Proof.
+  intros I SS H. simpl in H.
+  destruct (nth_error (thr s) t) as [[p cf]|] eqn:Ht; [|discriminate].
+  destruct (in_wait p) eqn:Ew; [|discriminate]. inversion H; subst s'; clear H.
+  pose proof (sim_thr _ _ SS t) as Hop. rewrite Ht in Hop.
+  assert (Hw : exists w, aget (m_open m) t = Some (OpWait w) /\ w_canc w = cf /\ wait_rel s m t p w).
+  { destruct p; try discriminate; exact Hop. }
+  destruct Hw as (w & Ho & Hcf & Hw).
+  eexists.
+  exists (refresh c 0 (set_open m ((t, OpWait (mkW (w_prev w) (w_floor w) true (w_aft w) (w_due w)))
+                                     :: adel (m_open m) t))).
+  split; [reflexivity|]. split; [simpl; rewrite Ho; reflexivity|].
+  apply sim_refresh. unfold add_log, set_thr; flds.
+  match goal with |- Sim _ ?M1 => eapply (sim_build _ _ _ M1 _ _ _ _ _ SS Ht) end; flds;
+  [ reflexivity | lia | auto
+  | unfold mext, m_floor; cbn [m_lo m_maxk m_tcall m_tret set_open]; repeat split; auto
+  | intros; cbn [m_open set_open]; rewrite aget_cons_other by auto; apply aget_adel_other; auto
+  | cbn [m_open set_open map fst]; constructor; [apply adel_notin|apply nodup_adel; apply SS]
+  | cbn [m_open set_open]; rewrite aget_cons_same
+  | cbn [m_lo set_open]; try solve [counts SS Ht]
+  | cbn [m_hi set_open]; try solve [counts SS Ht]
+  | unfold history; simpl; rewrite count_notifying_snoc; simpl; rewrite Nat.add_0_r;
+    exact (sim_hi_eq _ _ SS)
+  | cbn [m_maxk set_open]; try solve [counts SS Ht]
+  | apply SS | apply SS ].
+  assert (Hw' : wait_rel s (set_open m ((t, OpWait (mkW (w_prev w) (w_floor w) true (w_aft w) (w_due w)))
+                                     :: adel (m_open m) t)) t p
+                         (mkW (w_prev w) (w_floor w) true (w_aft w) (w_due w)))
+    by (apply (wait_rel_canc s m); exact Hw).
+  destruct p; try discriminate; eexists; (split; [reflexivity|]); (split; [reflexivity|]); exact Hw'.
+Qed.
+
+Ltac call_build SS Ht Ho :=
+  match goal with |- Sim _ ?M1 => eapply (sim_build _ _ _ M1 _ _ _ _ _ SS Ht) end; flds;
+  [ reflexivity | lia | auto
+  | unfold mext, m_floor; cbn [m_lo m_maxk m_tcall m_tret set_open]; repeat split; auto
+  | intros; cbn [m_open set_open]; rewrite aget_cons_other by auto; auto
+  | cbn [m_open set_open map fst]; constructor; [apply aget_none_notin; exact Ho|apply SS]
+  | cbn [m_open set_open]; rewrite aget_cons_same
+  | cbn [m_lo set_open]; try solve [counts SS Ht]
+  | cbn [m_hi set_open]; try solve [counts SS Ht]
+  | unfold history; simpl; rewrite count_notifying_snoc; simpl; rewrite (sim_hi_eq _ _ SS);
+    unfold history; lia
+  | cbn [m_maxk set_open]; try solve [counts SS Ht]
+  | cbn [m_tcall set_open]; try solve [auto | apply SS]
+  | cbn [m_tret set_open]; apply SS ].
+
+Lemma sim_call s t o s' m :
+  Inv i0 s -> Sim s m -> step s (ACall t o) = Some s' ->
+  exists e m', log s' = e :: log s /\ mon_event c m e = MOk m' /\ Sim s' m'.
+Proof.
+  intros I SS H. simpl in H.
+  destruct (nth_error (thr s) t) as [[p cf]|] eqn:Ht; [|discriminate].
+  destruct p; try discriminate. inversion H; subst s'; clear H.
+  pose proof (sim_thr _ _ SS t) as Ho. rewrite Ht in Ho. unfold op_rel in Ho.
+  assert (Hfl0 : m_floor m <= cnt s).
+  { unfold m_floor. pose proof (sim_lo _ _ SS). pose proof (sim_maxk _ _ SS). lia. }
+  eexists. unfold add_log, set_thr; flds.
+  destruct o as [| | | |q]; simpl entry.
+  - eexists. split; [reflexivity|]. split; [simpl; rewrite Ho; reflexivity|].
+    apply sim_refresh. call_build SS Ht Ho. exists (m_floor m). split; [reflexivity|exact Hfl0].
+  - eexists. split; [reflexivity|]. split; [simpl; rewrite Ho; reflexivity|].
+    apply sim_refresh. call_build SS Ht Ho. exists (m_floor m). split; [reflexivity|exact Hfl0].
+  - eexists. split; [reflexivity|]. split; [simpl; rewrite Ho; reflexivity|].
+    apply sim_refresh. call_build SS Ht Ho. reflexivity.
+  - eexists. split; [reflexivity|]. split; [simpl; rewrite Ho; reflexivity|].
+    apply sim_refresh. call_build SS Ht Ho. split; reflexivity.
+  - eexists. split; [reflexivity|]. split; [simpl; rewrite Ho; reflexivity|].
+    apply sim_refresh. call_build SS Ht Ho.
+    + assert (Hfl : m_floor m <= cnt s).
+      { unfold m_floor. pose proof (sim_lo _ _ SS). pose proof (sim_maxk _ _ SS). lia. }
+      destruct (N.eqb_spec q 0); unfold op_rel; eexists; (split; [reflexivity|]);
+        (split; [reflexivity|]); unfold wait_rel; simpl;
+        (split; [exact Hfl|]); (split; [congruence|]); (split; [auto|]); auto.
+    + destruct (N.eqb q 0); counts SS Ht.
+    + destruct (N.eqb q 0); counts SS Ht.
+Qed.
+
+(* the answers produced by one iteration of the tracking loop are valid *)
+Lemma reg_rel_answer s m t q w (flt : nat * N -> bool) (tmf : bool) rs :
+  Inv i0 s -> Sim s m ->
+  (exists cf, nth_error (thr s) t = Some (WSig q, cf) \/ nth_error (thr s) t = Some (WRel q, cf) \/
+              nth_error (thr s) t = Some (WSel q, cf) \/ nth_error (thr s) t = Some (WCAcq q, cf) \/
+              nth_error (thr s) t = Some (WCDel q, cf)) ->
+  w_floor w <= cnt s ->
+  (forall x, In x rs -> In x (reqs s) /\ (tmf = false -> snd x <> index s)) ->
+  (tmf = true -> terminated s = true) ->
+  reg_rel s m t q w ->
+  forall i tm,
+    aget (map (fun r => (fst r, (index s, tmf))) rs ++ resp s) t = Some (i, tm) ->
+    ret_ok s m w i (err_of_term tm).
+Proof.
+  intros I SS Hpc Hfl Hrs Htm (Hq & Ha & Hm) i tm H.
+  rewrite (aget_map_const (fun _ => (index s, tmf))) in H.
+  destruct (find (fun x => Nat.eqb (fst x) t) rs) as [x|] eqn:Ef; [|apply Hm; exact H].
+  inversion H; subst i tm; clear H.
+  apply find_key_some in Ef. destruct Ef as [Hin Hk]. destruct (Hrs _ Hin) as [Hin' Hst].
+  destruct x as [t' q']. simpl in Hk. subst t'.
+  destruct (inv_reqs _ _ I _ _ Hin') as (_ & pz & cz & Hn & Hreg).
+  assert (q' = q).
+  { destruct Hpc as (cf & Hpc). unfold registered in Hreg.
+    destruct Hpc as [Hp|[Hp|[Hp|[Hp|Hp]]]]; rewrite Hp in Hn; inversion Hn; subst;
+      destruct Hreg as [R|[R|[R|[R|R]]]]; congruence. }
+  subst q'. exists (cnt s). split; [lia|]. split; [exact (inv_idx _ _ I)|].
+  destruct tmf; simpl.
+  - split; [intros _; apply (sim_term _ _ SS); auto|]. split; [discriminate|discriminate].
+  - split; [discriminate|]. split; [discriminate|]. intros _. split; [|exact Ha].
+    right. rewrite Hq. intros E. apply (Hst eq_refl). simpl. congruence.
+Qed.
+
+Lemma sim_track s s' m :
+  Inv i0 s -> Sim s m -> track_step s = Some s' -> log s' = log s /\ Sim s' m.
+Proof.
+  intros I SS H. unfold track_step in H.
+  assert (Hsame : forall s2, thr s2 = thr s -> cnt s2 = cnt s -> resp s2 = resp s -> log s2 = log s ->
+                  terminated s2 = terminated s -> log s2 = log s /\ Sim s2 m).
+  { intros s2 H1 H2 H3 H4 H5. split; auto. constructor; try rewrite ?H1, ?H2, ?H5; try apply SS.
+    - intros t. pose proof (sim_thr _ _ SS t) as Ho. destruct (nth_error (thr s) t) as [[p cf]|]; auto.
+      eapply op_rel_frame; [| |apply mext_refl|exact Ho]; [lia|rewrite H3; auto].
+    - unfold history. rewrite H4. apply SS. }
+  destruct (tk s) eqn:Etk; try discriminate;
+    try (destruct (mu_free s); [|discriminate]); try (inversion H; subst s'; apply Hsame; reflexivity).
+  (* TkHold: one iteration *)
+  assert (Hgen : forall (flt : nat * N -> bool) tmf rs keep,
+             (forall x, In x rs -> In x (reqs s) /\ (tmf = false -> snd x <> index s)) ->
+             (tmf = true -> terminated s = true) ->
+             Sim (set_tk (set_reqs (set_resp s (map (fun r => (fst r, (index s, tmf))) rs ++ resp s)) keep)
+                         (if tmf then TkExiting else TkPreWait)) m).
+  { intros flt tmf rs keep Hrs Htm. unf2. constructor; flds; try apply SS.
+    intros t. pose proof (sim_thr _ _ SS t) as Ho.
+    destruct (nth_error (thr s) t) as [[p cf]|] eqn:Ht; auto.
+    unfold op_rel in Ho |- *.
+    destruct p; auto; destruct Ho as (w & Ho & Hcf & Hfl & Hdue & Haft & Hm); exists w;
+      (split; [exact Ho|]); (split; [exact Hcf|]); unfold wait_rel; flds;
+      (split; [exact Hfl|]); (split; [exact Hdue|]); (split; [exact Haft|]); try exact Hm;
+      match goal with
+      | |- w_canc w = true /\ _ => destruct Hm as [Hcc Hm]; split; [exact Hcc|]
+      | |- _ => idtac
+      end;
+      pose proof Hm as (Hq & Ha & Hr);
+      (split; [exact Hq|]); (split; [exact Ha|]);
+      apply (reg_rel_answer s m t p w flt tmf rs I SS); auto; exists cf; auto 6. }
+  destruct (terminated s) eqn:Et; inversion H; subst s'; clear H; (split; [reflexivity|]).
+  - unfold answer_all. apply (Hgen (fun _ => true) true (reqs s) []); auto.
+    intros x Hx. split; auto. discriminate.
+  - unfold answer_stale. apply (Hgen (stale s) false (filter (stale s) (reqs s)) (keep_current s)).
+    + intros x Hx. apply filter_In in Hx. destruct Hx as [Hx Hs]. split; auto. intros _.
+      unfold stale in Hs. destruct (N.eqb_spec (snd x) (index s)); [discriminate|auto].
+    + discriminate.
+Qed.
+
+Lemma first_nonzero_zero l : (forall x, In x l -> x = 0) -> first_nonzero l = 0.
+Proof.
+  induction l as [|x l IH]; intros H; simpl; auto.
+  rewrite (H x) by (left; auto). apply IH. intros y Hy. apply H. right. auto.
+Qed.
+
+Lemma sim_quiesce s s' m :
+  Inv i0 s -> Sim s m -> step s AQuiesce = Some s' -> m_hi m <= c_total c ->
+  exists e m', log s' = e :: log s /\ mon_event c m e = MOk m' /\ Sim s' m'.
+Proof.
+  intros I SS H Htot. simpl in H. destruct (quiescent s) eqn:Q; [|discriminate].
+  inversion H; subst s'; clear H.
+  destruct (quiescent_shape _ _ I Q) as (Hmu & Hk & Hb).
+  exists (EQuiesce 0), (refresh c 0 m). split; [reflexivity|]. split.
+  - simpl. rewrite first_nonzero_zero; [reflexivity|].
+    intros x Hx. apply in_map_iff in Hx. destruct Hx as ([t o'] & Hx & Hin). subst x.
+    unfold refresh in Hin. simpl in Hin. apply in_map_iff in Hin. destruct Hin as ([t' o] & E & Hin).
+    simpl in E. inversion E; subst t' o'; clear E.
+    pose proof (aget_in_nodup _ _ _ (sim_nodup _ _ SS) Hin) as Ho.
+    pose proof (sim_thr _ _ SS t) as Hop. rewrite Ho in Hop.
+    destruct (nth_error (thr s) t) as [[p cf]|] eqn:Ht; [|discriminate].
+    destruct (Hb _ _ _ Ht) as [Hp|(q & Hp & Hcf & Hr & Hin' & Hq & Htm)]; subst p.
+    + simpl in Hop. discriminate.
+    + simpl in Hop. destruct Hop as (w & Hw & Hc & Hfl & Hdue & Haft & Hpr & Ha & _).
+      inversion Hw; subst o; clear Hw.
+      destruct (inv_pc _ _ I _ _ _ Ht) as [_ [Hq0 _]].
+      assert (Hu : urgent c m w = false).
+      { unfold urgent. rewrite Hpr, Hc, Hcf.
+        destruct (N.eqb_spec q 0); [contradiction|]. simpl.
+        destruct (m_tret m) eqn:Etr; [rewrite (sim_tret _ _ SS Etr) in Htm; discriminate|]. simpl.
+        unfold certainly_stale.
+        assert (Hfc : m_floor m <= cnt s).
+        { unfold m_floor. pose proof (sim_lo _ _ SS). pose proof (sim_maxk _ _ SS). lia. }
+        pose proof (sim_hi _ _ SS) as Hh.
+        destruct (find_k_complete (c_init c) q (m_floor m) (S (c_total c) - m_floor m) (cnt s))
+          as (k' & Hf & _); [lia|rewrite Hq; symmetry; exact (inv_idx _ _ I)|].
+        rewrite Hf. reflexivity. }
+      unfold quiesce_code, refresh_one. simpl.
+      destruct (w_due w) eqn:Ed.
+      * rewrite Hdue in Hu; [discriminate|congruence].
+      * rewrite Hu. simpl. rewrite Ed. reflexivity.
+  - apply sim_refresh. unfold add_log. constructor; flds; try apply SS.
+    unfold history. simpl. rewrite count_notifying_snoc. simpl. rewrite Nat.add_0_r. apply SS.
+Qed.
+
+Lemma sim_step s a s' m :
+  Inv i0 s -> Sim s m -> step s a = Some s' -> count_notifying (history s) <= c_total c ->
+  (log s' = log s /\ Sim s' m) \/
+  (exists e m', log s' = e :: log s /\ mon_event c m e = MOk m' /\ Sim s' m').
+Proof.
+  intros I SS H Htot. destruct a.
+  - right. eapply sim_call; eauto.
+  - simpl in H. unfold step_thread in H.
+    destruct (nth_error (thr s) t) as [[p cf]|] eqn:Ht; [|discriminate].
+    eapply sim_thread_step; eauto.
+  - left. eapply sim_selcancel; eauto.
+  - right. eapply sim_cancel; eauto.
+  - left. eapply sim_track; eauto.
+  - right. eapply sim_quiesce; eauto. rewrite (sim_hi_eq _ _ SS). exact Htot.
+Qed.
+
+Lemma step_log s a s' : step s a = Some s' -> log s' = log s \/ exists e, log s' = e :: log s.
+Proof.
+  intros H. destruct a; simpl in H.
+  - destruct (nth_error (thr s) t) as [[p cf]|]; [|discriminate]. destruct p; try discriminate.
+    inversion H; subst. right. eexists. reflexivity.
+  - unfold step_thread in H. destruct (nth_error (thr s) t) as [[p cf]|]; [|discriminate].
+    destruct p; cbn [thread_step] in H; unf2;
+      repeat match type of H with
+             | (if ?b then _ else _) = _ => destruct b eqn:?
+             | match ?x with _ => _ end = _ => destruct x eqn:?
+             end; try discriminate; inversion H; subst s'; flds; eauto.
+  - unfold sel_cancel in H. destruct (nth_error (thr s) t) as [[p cf]|]; [|discriminate].
+    destruct p; try discriminate. destruct cf; [|discriminate]. inversion H; subst. auto.
+  - destruct (nth_error (thr s) t) as [[p cf]|]; [|discriminate].
+    destruct (in_wait p); [|discriminate]. inversion H; subst. right. eexists. reflexivity.
+  - unfold track_step in H. destruct (tk s); try discriminate;
+      try (destruct (mu_free s); [|discriminate]); try (destruct (terminated s));
+      inversion H; subst; auto.
+  - destruct (quiescent s); [|discriminate]. inversion H; subst. right. eexists. reflexivity.
+Qed.
+
+Lemma count_notifying_cons_le e l :
+  count_notifying (rev l) <= count_notifying (rev (e :: l)).
+Proof. simpl. rewrite count_notifying_snoc. lia. Qed.
+
+Lemma run_count_mono acts : forall s s',
+  run s acts = Some s' -> count_notifying (history s) <= count_notifying (history s').
+Proof.
+  induction acts as [|a r IH]; intros s s' H; simpl in H.
+  - inversion H; subst. lia.
+  - destruct (step s a) as [s1|] eqn:E; [|discriminate]. specialize (IH _ _ H).
+    unfold history in *. destruct (step_log _ _ _ E) as [El|[e El]]; rewrite El in IH; auto.
+    pose proof (count_notifying_cons_le e (log s)). lia.
+Qed.
+
+Lemma sim_init n : Sim (init_state i0 n) m0.
+Proof.
+  constructor; simpl; auto; try lia; try discriminate.
+  - intros t. destruct (nth_error (repeat (Idle, false) n) t) as [[p cf]|] eqn:E; auto.
+    apply nth_error_In in E. apply repeat_spec in E. inversion E; subst. reflexivity.
+  - constructor.
+  - rewrite countp_repeat; auto.
+  - rewrite countp_repeat; auto.
+Qed.
+
+Lemma mon_run_snoc l e : mon_run c (l ++ [e]) = mon_step c (mon_run c l) e.
+Proof. unfold mon_run. rewrite fold_left_app. reflexivity. Qed.
+
+Lemma sim_run acts : forall s m s',
+  Inv i0 s -> Sim s m -> mon_run c (history s) = MOk m -> run s acts = Some s' ->
+  count_notifying (history s') <= c_total c ->
+  exists m', mon_run c (history s') = MOk m' /\ Sim s' m'.
+Proof.
+  induction acts as [|a r IH]; intros s m s' I SS Hm H Htot; simpl in H.
+  - inversion H; subst. eauto.
+  - destruct (step s a) as [s1|] eqn:E; [|discriminate].
+    pose proof (run_count_mono _ _ _ H) as Hmono.
+    assert (Hc1 : count_notifying (history s1) <= c_total c) by lia.
+    assert (Hc0 : count_notifying (history s) <= c_total c).
+    { unfold history in *. destruct (step_log _ _ _ E) as [El|[e El]]; rewrite El in Hc1; auto.
+      pose proof (count_notifying_cons_le e (log s)). lia. }
+    pose proof (step_inv _ _ _ _ I E) as I1.
+    destruct (sim_step _ _ _ _ I SS E Hc0) as [[El S1]|(e & m1 & El & He & S1)].
+    + eapply IH; eauto. unfold history. rewrite El. exact Hm.
+    + eapply IH; eauto. unfold history. rewrite El. simpl. rewrite mon_run_snoc.
+      unfold history in Hm. rewrite Hm. exact He.
+Qed.
+End Sim.
+
+(* Every history of the transition system is accepted by the monitor. *)
+Theorem model_histories_accepted i0 n slack acts s :
+  run (init_state i0 n) acts = Some s ->
+  check_C30 i0 slack (history s) = true.
+Proof.
+  intros H. unfold check_C30, check_C30_code.
+  destruct (sim_run (mkCfg i0 (count_notifying (history s)) slack) acts (init_state i0 n) m0 s)
+    as (m' & Hm & _); auto.
+  - apply inv_init.
+  - apply sim_init.
+  - rewrite Hm. reflexivity.
+Qed.
